@@ -607,6 +607,9 @@ impl Engine {
                             bad = Some(format!("targeted get({target:?}) returned {frame}"));
                         }
                         if let Some(b) = bad {
+                            // also the sequential ownership model (C02): only entirely free blocks, a targeted get returns its target
+                            self.cov.oracle("C02");
+                            viol!(self, "C02", b.clone());
                             viol!(self, "C01", b);
                         }
                         if !self.class_admissible(class, cls.0) {
